@@ -28,17 +28,26 @@ def unit_kinds(ctx, clsname):
     """{attr: 'deg' | 'rad'} inferred from assignments in the class"""
     kinds = {}
     ci = ctx.model.cls(clsname)
+    from ..symx import SymExec
     for f in ci.methods.values():
-        for s in walk_no_nested(f.node):
-            if isinstance(s, ast.Assign) and isinstance(s.targets[0], ast.Attribute) and \
-               isinstance(s.targets[0].value, ast.Name) and s.targets[0].value.id == 'self':
-                k = expr_unit(s.value, kinds, f)
-                if k:
-                    a = s.targets[0].attr
-                    if a in kinds and kinds[a] != k:
-                        kinds[a] = 'conflict'
-                    else:
-                        kinds[a] = k
+        # the attribute stores of every method as closed expressions (conversion helpers, conditional
+        # choice of the helper, tuple results looked through)
+        try:
+            paths = [p_ for p_ in SymExec(ctx, f, bind_loops=True, effects=True, depth=3, max_paths=500).run() if p_.end != 'raise']
+        except AnalysisError:
+            paths = []
+        for _round in range(2):
+            for p_ in paths:
+                for ev in p_.events:
+                    if ev[0] != 'store' or not ev[1].startswith('self.') or ev[1].count('.') != 1 or '[' in ev[1]:
+                        continue
+                    k = expr_unit(ev[2], kinds, f)
+                    if k:
+                        a = ev[1][len('self.'):]
+                        if a in kinds and kinds[a] != k:
+                            kinds[a] = 'conflict'
+                        else:
+                            kinds[a] = k
     return kinds
 
 
